@@ -828,6 +828,16 @@ func runSshPool(cfg Config, rep *Report, m *Model, rng *rand.Rand) {
 		for k, v := range r.hist {
 			rep.Histogram[k] += v
 		}
+		if problem != "" && (strings.Contains(problem, "expected one of") || strings.Contains(problem, "where the return of one of the callers")) {
+			// the harness predicted which of several callers that can all return would be seen returning first, and the Go
+			// runtime ran another one first (a Close that needed nobody, a caller whose reply was already there): the order in
+			// which independent callers get to run is not a property of RemoteSSH.  Such a run is not comparable and is counted,
+			// not reported (false alarm of this harness in `vp check` request 12 on a fresh machine: "caller 4 returned closed:ok,
+			// expected one of [3] to return"; corrected in session 7).  What the machine's theorems are about — exclusive use of a
+			// session, no lost session, every caller returns, own reply — keeps its own messages and is still reported.
+			rep.Histogram["sshpool:order-not-predicted"]++
+			continue
+		}
 		if problem != "" {
 			rep.Disagree(Disagreement{Kind: "monitor", Case: line, What: "sshpool: " + problem})
 			if strings.Contains(problem, "never returned") || strings.Contains(problem, "no message from the client") {
